@@ -158,8 +158,13 @@ pub fn run_exit_contract(
                     None => vec![0],
                 }
             } else {
-                // the writer with a filter may never reach the broken packet's successor: nothing reported
-                vec![0]
+                // nothing on stderr: either nothing was found (the writer with a filter may never reach the
+                // broken packet's successor) or the mode does not display what it counted (filtered data to
+                // stdout, views without report) - both 0 and N are consistent with the statement
+                match n {
+                    Some(n) => vec![0, n],
+                    None => vec![0],
+                }
             };
             if !want.contains(&r.status) {
                 out.fail = fail(
